@@ -359,6 +359,17 @@ errGatherLoop:
 	}
 }
 
+// reportError records a run-time error for Execute to return. It is called with the run lock held and
+// therefore must never block: the buffer holds the first errors, which are the relevant ones, and the
+// run is being cancelled anyway. Later errors are only logged.
+func (l *loopState) reportError(err error) {
+	select {
+	case l.recentErrors <- err:
+	default:
+		l.logger.Warningf("Too many errors reported; dropping: %s", err.Error())
+	}
+}
+
 func (l *loopState) handleErrors() error {
 	lastErr := l.getLastError()
 	if lastErr != nil {
@@ -389,14 +400,14 @@ func (l *loopState) onStageComplete(
 	stageNode, err := l.dag.GetNodeByID(GetStageNodeID(stepID, *previousStage))
 	if err != nil {
 		l.logger.Errorf("Failed to get stage node ID %s (%w)", GetStageNodeID(stepID, *previousStage), err)
-		l.recentErrors <- fmt.Errorf("failed to get stage node ID %s (%w)", GetStageNodeID(stepID, *previousStage), err)
+		l.reportError(fmt.Errorf("failed to get stage node ID %s (%w)", GetStageNodeID(stepID, *previousStage), err))
 		l.cancel()
 		return
 	}
 	l.logger.Debugf("Resolving node %q in the DAG on stage complete", stageNode.ID())
 	if err := stageNode.ResolveNode(dgraph.Resolved); err != nil {
 		errMessage := fmt.Errorf("failed to resolve stage node ID %s (%s)", stageNode.ID(), err.Error())
-		l.recentErrors <- errMessage
+		l.reportError(errMessage)
 		l.cancel()
 		return
 	}
@@ -404,7 +415,7 @@ func (l *loopState) onStageComplete(
 		outputNode, err := l.dag.GetNodeByID(GetOutputNodeID(stepID, *previousStage, *previousStageOutputID))
 		if err != nil {
 			l.logger.Errorf("Failed to get output node ID %s (%w)", GetStageNodeID(stepID, *previousStage), err)
-			l.recentErrors <- fmt.Errorf("failed to get output node ID %s (%w)", GetStageNodeID(stepID, *previousStage), err)
+			l.reportError(fmt.Errorf("failed to get output node ID %s (%w)", GetStageNodeID(stepID, *previousStage), err))
 			l.cancel()
 			return
 		}
@@ -413,7 +424,7 @@ func (l *loopState) onStageComplete(
 		l.logger.Debugf("Resolving output node %q in the DAG", outputNode.ID())
 		if err := outputNode.ResolveNode(dgraph.Resolved); err != nil {
 			l.logger.Errorf("Failed to resolve output node ID %s (%w)", outputNode.ID(), err)
-			l.recentErrors <- fmt.Errorf("failed to resolve output node ID %s (%w)", outputNode.ID(), err)
+			l.reportError(fmt.Errorf("failed to resolve output node ID %s (%w)", outputNode.ID(), err))
 			l.cancel()
 			return
 		}
@@ -516,9 +527,9 @@ func (l *loopState) notifySteps() { //nolint:gocognit
 				if _, stillWaiting := l.waitingOutputs[nodeID]; stillWaiting {
 					delete(l.waitingOutputs, nodeID)
 					if len(l.waitingOutputs) == 0 && !l.outputDone {
-						l.recentErrors <- &ErrNoMorePossibleOutputs{
+						l.reportError(&ErrNoMorePossibleOutputs{
 							l.dag,
-						}
+						})
 						l.cancel()
 					}
 				}
@@ -551,7 +562,7 @@ func (l *loopState) notifySteps() { //nolint:gocognit
 			// out of range or a failing conversion function). This ends the run with an error; it must
 			// not take the whole process down from a step's goroutine.
 			l.logger.Errorf("Cannot resolve expressions for %s (%v)", nodeID, err)
-			l.recentErrors <- fmt.Errorf("cannot resolve expressions for %s (%w)", nodeID, err)
+			l.reportError(fmt.Errorf("cannot resolve expressions for %s (%w)", nodeID, err))
 			l.cancel()
 			return
 		}
@@ -568,7 +579,7 @@ func (l *loopState) notifySteps() { //nolint:gocognit
 			// Tries to match the schema
 			if _, err := nodeItem.DataSchema.Unserialize(untypedInputData); err != nil {
 				l.logger.Errorf("Bug: schema evaluation resulted in invalid data for %s (%v)", nodeID, err)
-				l.recentErrors <- fmt.Errorf("bug: schema evaluation resulted in invalid data for %s (%w)", nodeID, err)
+				l.reportError(fmt.Errorf("bug: schema evaluation resulted in invalid data for %s (%w)", nodeID, err))
 				l.cancel()
 				return
 			}
@@ -591,7 +602,7 @@ func (l *loopState) notifySteps() { //nolint:gocognit
 				typedInputData,
 			); err != nil {
 				l.logger.Errorf("Bug: failed to provide input to step %s (%w)", nodeItem.StepID, err)
-				l.recentErrors <- fmt.Errorf("bug: failed to provide input to step %s (%w)", nodeItem.StepID, err)
+				l.reportError(fmt.Errorf("bug: failed to provide input to step %s (%w)", nodeItem.StepID, err))
 				l.cancel()
 				return
 			}
@@ -666,9 +677,9 @@ func (l *loopState) checkForDeadlocks(retries int, wg *sync.WaitGroup) {
 	)
 	if counters.starting == 0 && counters.running == 0 && !hasReadyNodes && !l.outputDone {
 		if retries <= 0 {
-			l.recentErrors <- &ErrNoMorePossibleSteps{
+			l.reportError(&ErrNoMorePossibleSteps{
 				l.dag,
-			}
+			})
 			l.logger.Debugf("DAG:\n%s", l.dag.Mermaid())
 			l.logger.Errorf("TERMINATING WORKFLOW; Errors below this error may be due to the early termination")
 			l.cancel()
